@@ -462,10 +462,11 @@ impl State {
     }
 
     // With direct timestamp naming and without append, a start within the same second as
-    // an earlier file must not truncate that file.
+    // an earlier file must not truncate that file. With append, the newest file with this
+    // timestamp is continued (which may be a `.restart-NNNN` sibling, not the base file).
     fn collision_free_if_not_appending(&self, infix: String) -> String {
         if self.config.append {
-            infix
+            self.config.file_spec.infix_of_file_to_append_to(&infix)
         } else {
             self.config
                 .file_spec
